@@ -163,7 +163,5 @@ end CaddyModel.C13
 
 namespace CaddyModel.C13
 /-- counter-example lines replayed on the implementation on every run (see Witness.lean) -/
-def witnessLines : List String := [
-  -- Witness.origin_missing_refused_full_fails: origins ["", "localhost:2019"], enforce_origin, no Origin header
-  "C13 req L 6c6f63616c686f73743a32303139:746370:6c6f63616c686f7374:2019:n -:1:-:-;6c6f63616c686f73743a32303139:1:-:- 1 ~ . . 474554 6c6f63616c686f73743a32303139 2f636f6e6669672f . -:1:-:- -:1:-:- ~"]
+def witnessLines : List String := []
 end CaddyModel.C13
